@@ -52,6 +52,12 @@ pub struct RecorderTrace {
     /// direct drive of calculate_hashes through a simulated stream instead of the above
     pub stream: Option<(usize, bool, u64, Option<usize>)>,
     pub labels: Vec<String>,
+    /// another recording on the same thread right before this one (0 none): 1 a path that does not exist (the
+    /// call fails), 2 another directory whose files bear the same relative names with other content, 3 a step
+    /// whose command cannot be started (the call fails after its materials were recorded) — whatever an earlier
+    /// call, or its error path, leaves behind on the thread must not show in this recording
+    #[serde(default)]
+    pub prelude: u8,
 }
 
 pub fn file_content(size: usize, seed: u64) -> Vec<u8> {
@@ -299,12 +305,49 @@ pub fn run_recorder(t: &RecorderTrace, scratch: &Scratch) -> RecOutcome {
     let dev = std::fs::metadata(&ws).map(|m| m.dev()).unwrap_or(0);
     let t2 = t.clone();
     let ws2 = ws.clone();
+    // the prelude's own directory (outside the workspace): files named like the tree's, other content
+    let pre_dir = scratch.side().join("prelude-ws");
+    if t.prelude != 0 {
+        let _ = std::fs::remove_dir_all(&pre_dir);
+        let _ = std::fs::create_dir_all(&pre_dir);
+        let mut n = 0;
+        for op in &t.tree {
+            if let TreeOp::File { path, .. } = op {
+                let f = pre_dir.join(path);
+                if let Some(d) = f.parent() {
+                    let _ = std::fs::create_dir_all(d);
+                }
+                let _ = std::fs::write(&f, format!("prelude content of {path}"));
+                n += 1;
+                if n >= 6 {
+                    break;
+                }
+            }
+        }
+    }
+    let pre_dir2 = pre_dir.clone();
     let (paths2, lstrip2) = (paths.clone(), lstrip.clone());
     let r = exec::silenced(|| {
         exec::in_fresh_thread(t.io_seed, move || {
             let p: Vec<&str> = paths2.iter().map(|s| s.as_str()).collect();
             let ls_owned: Option<Vec<&str>> = lstrip2.as_ref().map(|v| v.iter().map(|s| s.as_str()).collect());
             let al_owned: Option<Vec<&str>> = t2.algs.as_ref().map(|v| v.iter().map(|s| s.as_str()).collect());
+            if t2.prelude != 0 && std::env::set_current_dir(&pre_dir2).is_ok() {
+                match t2.prelude {
+                    1 => {
+                        let _ = in_toto::runlib::record_artifacts(&["no-such-directory/below"], al_owned.as_deref(), None);
+                    }
+                    2 => {
+                        let _ = in_toto::runlib::record_artifacts(&["."], al_owned.as_deref(), None);
+                        let wsd = pre_dir2.to_string_lossy().to_string();
+                        let _ = in_toto::runlib::record_artifacts(&[wsd.as_str()], al_owned.as_deref(), Some(&[wsd.as_str()]));
+                    }
+                    _ => {
+                        let _ = in_toto::runlib::in_toto_run("prelude", None, &["."], &["."], &["/nonexistent/scsim-prelude-command"], None, al_owned.as_deref(), None);
+                    }
+                }
+                let _ = std::env::set_current_dir(&ws2);
+            }
             if let Some((s, e, io)) = t2.read_faults {
                 crate::seams::read_arm(dev, t2.io_seed, s, e, io);
             }
@@ -674,7 +717,7 @@ pub fn gen_trace(seed: u64, tier: Tier) -> RecorderTrace {
         let size = *r.pick(SIZES);
         let eintr = *r.pick(&[0u64, 0, 20]);
         let fail = if r.chance(1, 4) { Some(r.idx(size + 1)) } else { None };
-        return RecorderTrace { tree: vec![], paths: vec![], lstrip: None, algs: None, run: None, read_faults: None, io_seed: r.next(), stream: Some((size, r.chance(4, 5), eintr, fail)), labels: vec!["STREAM".into()] };
+        return RecorderTrace { tree: vec![], paths: vec![], lstrip: None, algs: None, run: None, read_faults: None, io_seed: r.next(), stream: Some((size, r.chance(4, 5), eintr, fail)), labels: vec!["STREAM".into()], prelude: 0 };
     }
     let mut tree = vec![];
     let mut dirs: Vec<String> = vec![];
@@ -884,7 +927,18 @@ pub fn gen_trace(seed: u64, tier: Tier) -> RecorderTrace {
     } else {
         None
     };
-    RecorderTrace { tree, paths, lstrip, algs, run, read_faults, io_seed: r.next(), stream: None, labels }
+    let prelude = {
+        let mut pr = Rng::stream(seed, "recorder-prelude");
+        if pr.chance(1, 5) {
+            1 + pr.below(3) as u8
+        } else {
+            0
+        }
+    };
+    if prelude != 0 {
+        labels.push(format!("PRELUDE-{}", ["", "FAILS", "SAME-NAMES", "RUN-FAILS"][prelude as usize]));
+    }
+    RecorderTrace { tree, paths, lstrip, algs, run, read_faults, io_seed: r.next(), stream: None, labels, prelude }
 }
 
 pub fn run_c18(tier: Tier, seed: u64, index: u64, scratch: &Scratch, rec: &mut RunRecord) {
@@ -918,6 +972,11 @@ pub fn minimise(prop: &str, clause: &str, t: &RecorderTrace, scratch: &Scratch) 
                     cands.push(c);
                 }
             }
+        }
+        if cur.prelude != 0 {
+            let mut c = cur.clone();
+            c.prelude = 0;
+            cands.push(c);
         }
         if cur.paths.len() > 1 {
             for i in 0..cur.paths.len() {
